@@ -24,7 +24,7 @@ RULE = ("one evaluation = one read (whole, or chunked with one k) of a generated
 BUDGET = {"quick": (6000, 40), "thorough": (90000, 900)}
 
 FORMAT_WEIGHTS = [(3, "bed3"), (3, "bed6"), (2, "bdg"), (2, "narrowpeak"), (2, "vcf"), (2, "sam"), (2, "gtf"),
-                  (3, "fasta2"), (2, "fastaw"), (4, "fastq"), (2, "bed12")]
+                  (3, "fasta2"), (2, "fastaw"), (4, "fastq"), (2, "bed12"), (3, "vcfinfo")]
 
 NUMERIC_KINDS = ("int", "sint", "pos1", "float", "optint", "listint")
 
@@ -43,7 +43,9 @@ def applicable_classes(fmt):
         if any(k == "strand" for _, k in fmt.fields):
             out.append("strand")
         if fmt.fields[-1][1] != "rest":
-            out.append("columns_two")   # one line with a column more and another with a column fewer (the totals cancel)
+            out.append("columns_two")
+        if fmt.name == "vcfinfo":
+            out.append("info_nonnumeric")    # a non-numeric character inside a typed Integer / Float INFO value   # one line with a column more and another with a column fewer (the totals cancel)
     out.append("torn")
     return out
 
@@ -79,6 +81,24 @@ def generate(ctx):
         nl = data.index(b"\n", data.index(b"\n", start) + 1) + 1
         bad[nl] = ord("-")
         info["offset"] = nl
+    elif klass == "info_nonnumeric":
+        import re as _re
+        fs_, fl = fsp["info"]
+        text = data[fs_:fs_ + fl].decode("latin1")
+        # digits of Integer / Float items (key=value[,value]) of this record's INFO column
+        cands = []
+        for m in _re.finditer(r"(?:^|;)([A-Z]+)=([^;]*)", text):
+            if m.group(1) in T.INFO_KEYS and T.INFO_KEYS[m.group(1)][1] in ("Integer", "Float"):
+                cands += [m.start(2) + j for j, ch in enumerate(m.group(2)) if ch.isdigit()]
+        if not cands:
+            klass = info["class"] = "nonnumeric"
+            fs_, fl = fsp["position"]
+            bad[fs_] = ord("x")
+            info.update({"field": "position", "offset": fs_, "char": "x"})
+        else:
+            off = fs_ + cands[tape.draw(len(cands), "info.digit")]
+            bad[off] = ord("x")
+            info.update({"field": "info", "offset": off, "char": "x"})
     elif klass == "plus_removed":
         if r == n - 1 and ctx.excl:
             # KF-C15-incomplete-last-record (open): an incomplete last record is left out silently; in 90 % of the runs the
@@ -222,7 +242,7 @@ def execute(ctx, sc):
         return
     _, bad_line, reason = res
     # judge only outcomes that fall under the violation classes the property lists
-    want = {"marker": ("marker",), "plus": ("plus",), "plus_removed": ("plus", "columns", "marker"), "columns_fewer": ("columns",), "columns_more": ("columns",), "columns_two": ("columns",),
+    want = {"marker": ("marker",), "plus": ("plus",), "plus_removed": ("plus", "columns", "marker"), "columns_fewer": ("columns",), "columns_more": ("columns",), "columns_two": ("columns",), "info_nonnumeric": ("field:info",),
             "torn": ("columns",), "nonnumeric": ("field:" + str(sc["fault"].get("field")),),
             "strand": ("field:" + str(sc["fault"].get("field")),)}[klass]
     if reason not in want:
